@@ -4,10 +4,11 @@ Local Open Scope Z_scope.
 
 Section Inv.
   Variable o : eopts.
+  Variable NN : Prop.
   Hypothesis Hsig : o_sig o <> Profiles.
 
-  Notation GI := (GI o).
-  Notation GIR := (GIR o).
+  Notation GI := (GI o NN).
+  Notation GIR := (GIR o NN).
 
   Definition Inv6 (st : est) : Prop := GI st (fdones (s_flushq st)).
 
@@ -58,7 +59,7 @@ Section Inv.
     GIR (if 1 <? k then (d_id d, (d, (k, ROk))) :: c else c) q nx qs sto kept R'.
   Proof.
     intros G O C Q K E. destruct (1 <? k) eqn:E1.
-    - apply Z.ltb_lt in E1. destruct G as [A B Cq D F Gc H I].
+    - apply Z.ltb_lt in E1. destruct G as [A B Cq D F Gc H I J].
       rewrite dsum_cons in F. pose proof (oldf_nonneg nx d). pose proof (dsum_nonneg (oldf nx) R (oldf_nonneg nx)).
       assert (Hold : oldf nx d = 0) by lia.
       assert (Hlt : (d_id d < nx)%nat) by (unfold oldf in Hold; destruct (d_id d <? nx)%nat eqn:L; [now apply Nat.ltb_lt|discriminate]).
@@ -90,6 +91,13 @@ Section Inv.
       + intros id Hi. unfold c' in Hi. cbn in Hi. destruct Hi; [subst; exact Hlt|auto].
       + intros Hs. rewrite HLS. auto.
       + intros Hs. rewrite HLS. auto.
+      + intros HN. destruct (J HN) as (J1 & J2 & J3 & J4). rewrite dsum_cons in J1.
+        pose proof (negf_nonneg d). pose proof (dsum_nonneg negf R negf_nonneg).
+        assert (Hneg : negf d = 0) by lia.
+        split; [rewrite E; lia|]. split; [|split; [exact J3|]].
+        * intros id x n acc Hi. unfold c' in Hi. destruct Hi as [Hi|Hi]; [|eauto].
+          inversion Hi; subst. unfold negf in Hneg. destruct (d_el x <? 0) eqn:Qn; [discriminate|]. now apply Z.ltb_ge in Qn.
+        * intros Hs. rewrite HLS. auto.
     - apply Z.ltb_ge in E1. assert (k = 1) by lia. subst k. eapply GIR_equiv; [|exact G].
       intros g. rewrite E, dsum_cons. lia.
   Qed.
